@@ -20,6 +20,9 @@ worker() {
     esac
   done; done
   rm -rf /var/tmp/qrlew-verif-seedrun-$k
+  # the replay build of this stream's scratch copy (keyed by the copy's path, 1-2 GB)
+  h=$(python3 -c "import hashlib;print(hashlib.sha1(b'/var/tmp/qrlew-verif-seedrun-$k/repo').hexdigest()[:8])")
+  rm -rf /verif/.work/replay-target-$h /verif/.work/replay-crate-$h
 }
 i=0; declare -a buckets
 for p in $props; do buckets[$((i % K))]+=" $p"; i=$((i+1)); done
